@@ -46,7 +46,7 @@ def run_task(task):
         if not res.samples: res.samples.append({'kind': 'logic', 'm': 8})
         return res
     for idx, nl in enumerate(W.w2_circuits(task)):
-        if tier == 'quick' and idx % 2 != seed % 2: continue
+        if tier == 'quick' and idx % 2 != seed % 2 and task[1] != 'wide': continue
         si = (idx // 2 if tier == 'quick' else idx) % len(STYLES)
         b = build(nl, STYLES[si])
         nlines = len(b.circuit.lines)
